@@ -10,14 +10,14 @@ CLAIMED = {
     "C01": dict(
         cat="exploration",
         ref="DESIGN.md 4/C01",
-        technique="deterministic simulation: seeded histories of public mutators from vertex, link and builder side with failing-call faults; symmetry/duplicate invariant after every step; minimised op-list replay",
+        technique="deterministic simulation: seeded histories of public mutators entered from the vertex, link and builder side, with failing-call faults and user code re-entering the protocol (subclass overrides), value-equal and falsy vertex classes; symmetry/duplicate invariant after every step; minimised op-list replay",
         text="Seeded search over call histories (aliasing-biased arguments, calls that raise part-way) with the symmetric / duplicate-free invariant evaluated after every step. Sampling, not proof: right level because the property quantifies over unboundedly many histories of a re-entrant two-party protocol.",
         note="Trusts: CPython, the label/snapshot walk over public accessors (links, vertices). Assumes single-threaded use and caching off.",
     ),
     "C02": dict(
         cat="exploration",
         ref="DESIGN.md 4/C02",
-        technique="deterministic simulation: seeded membership histories from both sides over nested universes, failing-call (non-member removal) atomicity, list reference model after every step",
+        technique="deterministic simulation: seeded membership histories from both sides over nested universes, iterator/generator arguments, a re-entrant subclass override, failing-call (non-member removal) atomicity, list reference model after every step",
         text="Seeded histories of the four membership calls and two constructors against an insertion-ordered list model; removal of a non-member must raise and leave the snapshot untouched.",
         note="Trusts the reference model in egsim/model.py (40 lines for these calls). Any exception class counts as 'raises'.",
     ),
@@ -31,7 +31,7 @@ CLAIMED = {
     "C19": dict(
         cat="exploration",
         ref="DESIGN.md 4/C19",
-        technique="deterministic simulation: seeded histories of the two mutually recursive setters from either side, bijection invariant + own-target + rule read-back after every step, watchdog for runaway recursion",
+        technique="deterministic simulation: seeded histories of the two mutually recursive setters from either side over plain, falsy and value-equal universe classes, an ill-typed assignment as a history-ending failing call, bijection invariant + own-target + rule read-back after every step, watchdog for runaway recursion",
         text="Seeded histories of laws/applies_to assignments and universe constructions; u.laws is L iff L.applies_to is u over every known pair after every step.",
         note="Law sets built without applies_to=; what a displaced partner receives is not dictated beyond the invariant.",
     ),
@@ -73,14 +73,14 @@ CLAIMED = {
     "C17": dict(
         cat="exploration",
         ref="DESIGN.md 4/C17",
-        technique="deterministic simulation: seeded histories over process-global registries shared by six related classes, colliding argument values, per-class key->instance model, every live key of every class re-queried after every step",
+        technique="deterministic simulation: seeded histories over process-global registries shared by seven related classes, colliding argument values, fault injection (user __init__ raising, un-keyable arguments), re-entrant registry calls from inside __init__, runs that hold no references (GC), per-class key->instance model, every live key of every class re-queried after every step",
         text="Seeded histories of constructions, add_mapping, drop, check, get_all and clear across classes sharing metaclass registries, against a per-class model; isolation is probed by re-querying all live keys after each operation.",
         note="Key equality = Python equality of (args, sorted-kwargs JSON) or of the custom function's value. Whether dropping an absent key raises is not specified.",
     ),
     "C18": dict(
         cat="exploration",
         ref="DESIGN.md 4/C18",
-        technique="deterministic simulation: seeded histories of constructions and targeted/global clears over a class, two subclass levels and an unrelated class sharing one process-global table; cls->instance model, all live classes re-checked after every step",
+        technique="deterministic simulation: seeded histories of constructions and targeted/global clears over a class, two subclass levels, falsy-instance classes, a derived metaclass and an unrelated class sharing one process-global table; fault injection (__init__ raising), re-entrant clears/constructions from inside __init__, runs that hold no references; cls->instance model, all live classes re-checked after every step",
         text="Seeded interleavings of constructions (arbitrary arguments) and clears; identity, __init__ count and first-call arguments checked against the model after every step.",
         note="The global table is emptied through the public clear at run start; classes are fresh per run.",
     ),
